@@ -468,9 +468,12 @@ def compile_observed(ast, uri="uri.feature", idgen=None):
     return status, res, mutated, doc
 
 
-def enum_observed(data, uri="uri.feature", options=(True, True, True), events=None):
-    """GherkinEvents.enum on one source. -> (status, envelopes | exception record, opened paths)"""
+def enum_observed(data, uri="uri.feature", options=(True, True, True), events=None, stop=None):
+    """GherkinEvents.enum on one source. -> (status, envelopes | exception record, opened paths)
+    stop=True/False sets stop_at_first_error on the stream's parser (the stream handles both error forms)."""
     ge = events or GherkinEvents(GherkinEvents.Options(*options))
+    if stop is not None:
+        ge.parser.stop_at_first_error = stop
     src = {"source": {"uri": uri, "data": data, "mediaType": "text/x.cucumber.gherkin+plain"}}
     with probe.auditing() as opened:
         try:
